@@ -15,7 +15,7 @@ CO_ERR usr_read(CO_OBJ *o, CO_NODE *n, void *b, uint32_t s) { (void)n; if (s != 
 CO_ERR usr_write(CO_OBJ *o, CO_NODE *n, void *b, uint32_t s) {
   if (s != 4) return CO_ERR_BAD_ARG;
   uint32_t v; memcpy(&v, b, 4);
-  if (v & 0x80000000u) { COObjTypeUserSDOAbort(o, n, APP_CODE); return CO_ERR_TYPE_WR; }
+  if (v & 0x80000000u) { COObjTypeUserSDOAbort(o, n, APP_CODE); static const CO_ERR RV[4] = {CO_ERR_TYPE_WR, CO_ERR_OBJ_RANGE, CO_ERR_OBJ_ACC, CO_ERR_OBJ_INCOMPATIBLE}; return RV[(v >> 28) & 3]; }   // the code the application supplies is the abort code, whichever error value the type function returns with it
   memcpy((void *)o->Data, &v, 4); return CO_ERR_NONE;
 }
 const CO_OBJ_TYPE UsrType = {usr_size, 0, usr_read, usr_write, 0};
